@@ -209,24 +209,61 @@ fn flatten_prog(prog: &Prog) -> Prog {
     q
 }
 
-fn assembler_for(prog: &Prog) -> Assembler {
+const BASE_MODULE: &str = "export.b0\n    push.77001 drop\nend\nexport.b1\n    push.77002 push.77003 drop drop\nend\n";
+
+/// the library module with re-exports of another module's procedures before its first procedure and
+/// between its procedures (they do not change what the module's own procedures mean)
+fn with_reexports(lib_src: &str) -> String {
+    let mut s = String::from("use.lib::base\nexport.base::b0\n");
+    match lib_src.find("\nend\n") {
+        Some(i) => {
+            s.push_str(&lib_src[..i + 5]);
+            s.push_str("export.base::b1\n");
+            s.push_str(&lib_src[i + 5..]);
+        }
+        None => s.push_str(lib_src),
+    }
+    s
+}
+
+fn library_of(lib_src: &str, reexports: bool) -> MaslLibrary {
+    let parse = |src: &str| ModuleAst::parse(src).unwrap_or_else(|e| panic!("SUBJECT: library module must parse: {e}\n{src}"));
+    let mut modules = vec![];
+    let src = if reexports {
+        modules.push(Module::new(LibraryPath::new("lib::base").unwrap(), parse(BASE_MODULE)));
+        with_reexports(lib_src)
+    } else {
+        lib_src.to_string()
+    };
+    modules.push(Module::new(LibraryPath::new("lib::m").unwrap(), parse(&src)));
+    MaslLibrary::new(LibraryNamespace::new("lib").unwrap(), Version::default(), false, modules, vec![]).expect("SUBJECT: library must build")
+}
+
+fn assembler_for(prog: &Prog, reexports: bool) -> Assembler {
     let mut asm = Assembler::default();
     if let Some(src) = prog.lib_source() {
-        let ast = ModuleAst::parse(&src).unwrap_or_else(|e| panic!("SUBJECT: library module must parse: {e}\n{src}"));
-        let module = Module::new(LibraryPath::new("lib::m").unwrap(), ast);
-        let lib = MaslLibrary::new(LibraryNamespace::new("lib").unwrap(), Version::default(), false, vec![module], vec![])
-            .expect("SUBJECT: library must build");
-        asm = asm.with_library(&lib).expect("SUBJECT: with_library must succeed");
+        asm = asm.with_library(&library_of(&src, reexports)).expect("SUBJECT: with_library must succeed");
     }
     asm
 }
 
 fn compile(prog: &Prog) -> processor::Program {
+    compile_cfg(prog, false)
+}
+
+fn compile_cfg(prog: &Prog, reexports: bool) -> processor::Program {
+    match try_compile_cfg(prog, reexports) {
+        Ok(p) => p,
+        Err(e) => panic!("SUBJECT: {e}"),
+    }
+}
+
+fn try_compile_cfg(prog: &Prog, reexports: bool) -> Result<processor::Program, String> {
     let src = prog.to_source();
-    match mcx::guard::catch(|| assembler_for(prog).compile(&src)) {
-        Ok(Ok(p)) => p,
-        Ok(Err(e)) => panic!("SUBJECT: family program must assemble: {e}\n{src}\n{:?}", prog.lib_source()),
-        Err(p) => panic!("SUBJECT: assembler panicked: {p}\n{src}"),
+    match mcx::guard::catch(|| assembler_for(prog, reexports).compile(&src)) {
+        Ok(Ok(p)) => Ok(p),
+        Ok(Err(e)) => Err(format!("family program must assemble: {e}\n{src}\n{:?}", prog.lib_source())),
+        Err(p) => Err(format!("assembler panicked: {p}\n{src}")),
     }
 }
 
@@ -322,6 +359,43 @@ fn check_program(ctx: &Ctx, prog: &Prog, max_len: usize, stats: &Mutex<BTreeMap<
                 format!("answers {adv:?}: original {} vs unrolled/pasted {}", real.brief(), real_flat.brief()),
                 case(adv),
             );
+        }
+    }
+    // second assembler configuration for programs with an imported module: the same module with
+    // re-exports of another module's procedures before and between its own procedures; what the
+    // module's procedures mean (and so the whole behaviour) must not change
+    if prog.lib_source().is_some() {
+        let program_rx = match try_compile_cfg(prog, true) {
+            Ok(p) => Some(p),
+            Err(e) => {
+                let mut c = case(&[]);
+                c["lib_reexports"] = json!(true);
+                ctx.fail(
+                    json!({"kind": "valid_program_rejected", "config": "imported module with re-exports"}),
+                    e.chars().take(300).collect::<String>().replace('\n', " "),
+                    c,
+                );
+                None
+            }
+        };
+        for adv in complete.iter().filter(|_| program_rx.is_some()) {
+            let real = run_program(program_rx.as_ref().unwrap(), &[], adv);
+            let (r, rs, unc) = run_ref(prog, adv);
+            *local.entry("binary(re-export configuration)".into()).or_insert(0) += 1;
+            let mismatch = match (&real, refglue::compare(&real, &r, &rs, !unc)) {
+                (Outcome::Panic(p), _) => Some(format!("panic: {}", mcx::guard::short_panic(p))),
+                (_, Verdict::Mismatch(m)) => Some(m),
+                _ => None,
+            };
+            if let Some(m) = mismatch {
+                let mut c = case(adv);
+                c["lib_reexports"] = json!(true);
+                ctx.fail(
+                    json!({"kind": "control_flow_mismatch", "config": "imported module with re-exports", "ref": refglue::ref_class(&r), "real": real.kind()}),
+                    format!("answers {adv:?}: {m} :: {}", src.replace('\n', " ")),
+                    c,
+                );
+            }
         }
     }
     let mut s = stats.lock().unwrap();
@@ -477,14 +551,18 @@ fn replay_case(ctx: &Ctx, case: &Value) -> i32 {
     let adv: Vec<u64> = case["advice"].as_array().unwrap().iter().map(|x| x.as_u64().unwrap()).collect();
     let mut asm = Assembler::default();
     if let Some(lib) = case["lib"].as_str() {
-        let ast = ModuleAst::parse(lib).unwrap();
-        let module = Module::new(LibraryPath::new("lib::m").unwrap(), ast);
-        let l = MaslLibrary::new(LibraryNamespace::new("lib").unwrap(), Version::default(), false, vec![module], vec![]).unwrap();
-        asm = asm.with_library(&l).unwrap();
+        let rx = case["lib_reexports"].as_bool().unwrap_or(false);
+        if rx {
+            println!("library module as assembled (with re-exports):\n{}\nmodule lib::base:\n{BASE_MODULE}", with_reexports(lib));
+        }
+        asm = asm.with_library(&library_of(lib, rx)).unwrap();
     }
     let real = run_source(&asm, src, &[], &adv);
     println!("program:\n{src}\nlibrary: {:?}\nadvice (answers): {adv:?}\nreal: {}", case["lib"].as_str(), real.brief());
-    if adv.last().map(|x| *x > 1).unwrap_or(false) {
+    if let Outcome::AsmErr(e) = &real {
+        println!("expected: the program assembles (it is valid by construction)");
+        ctx.fail(json!({"kind": "valid_program_rejected"}), e.clone(), case.clone());
+    } else if adv.last().map(|x| *x > 1).unwrap_or(false) {
         println!("expected: Err(NotBinaryValue) because the last answer is not binary");
         if !matches!(&real, Outcome::Err(e) if err_variant(e) == "NotBinaryValue") {
             ctx.fail(json!({"kind": "non_binary_condition_not_rejected", "real": real.kind()}), real.brief(), case.clone());
